@@ -210,8 +210,13 @@ def main():
                 if obj3 is not None and "e" in out3:
                     out3["same_obj"] = obj3 == a3
                     out3["same_str"] = obj3.to_y0() == a3.to_y0()
+                # pub: the whole object comes from the public builder and the DSL operators (no rewrite helper such as
+                # fraction_expand, which assembles distributions itself, took part)
+                def ops_only(t):
+                    return (not isinstance(t, dict)) or (t.get("op") in ("atom", "one", "zero", "mul", "div", "marg", "nmarg")
+                                                         and all(ops_only(t.get(k)) for k in ("a", "b")))
                 recs.append({"id": rid + "#spelled", "k": "pp", "a": pre3, "out": out3, "text": a3.to_y0()[:300],
-                             "raw": has_raw(x), "pub": True})
+                             "raw": has_raw(x), "pub": ops_only(x["a"])})
             except NotApplicable:
                 pass
             except Exception:  # noqa: BLE001
